@@ -54,6 +54,65 @@ fn det_tail(rng: &mut util::Rng) -> String {
     s
 }
 
+/// Small sources whose diagnostics carry a SUGGESTION chosen among several equally good
+/// candidates (names at the same edit distance from the misspelt one): which one is shown must not
+/// depend on the process (hash seeds, addresses).  Unknown variables are rejected before anything
+/// runs, so these are separate sources, each observed on its own (evaluation + static checker).
+fn tie_sources(rng: &mut util::Rng) -> Vec<String> {
+    let stems = ["total", "item", "cfg", "node", "val"];
+    let sufs = ["a", "b", "c", "d", "e", "f", "g", "h"];
+    let mut out = Vec::new();
+    for shape in 0..5 {
+        let stem = stems[rng.below(stems.len() as u64) as usize];
+        let k = 2 + rng.below(5) as usize;
+        let mut ss: Vec<&str> = sufs.to_vec();
+        let mut names: Vec<String> = Vec::new();
+        for _ in 0..k {
+            let i = rng.below(ss.len() as u64) as usize;
+            names.push(format!("{}_{}", stem, ss.remove(i)));
+        }
+        let miss = format!("{}_x", stem);
+        let src = match shape {
+            // parameters of one def
+            0 => format!("def compute({}):\n    return {}\ncompute({})\n", names.join(", "), miss, names.iter().map(|_| "1").collect::<Vec<_>>().join(", ")),
+            // module-level variables
+            1 => format!("{}\nemit({})\n", names.iter().map(|n| format!("{} = 1", n)).collect::<Vec<_>>().join("\n"), miss),
+            // locals of an enclosing def and of the inner one
+            2 => {
+                let (outer, inner) = names.split_at(k / 2);
+                format!("def outer():\n{}\n    def inner():\n{}\n        return {}\n    return inner()\nouter()\n",
+                    outer.iter().map(|n| format!("    {} = 1", n)).collect::<Vec<_>>().join("\n"),
+                    if inner.is_empty() { "        pass".to_owned() } else { inner.iter().map(|n| format!("        {} = 2", n)).collect::<Vec<_>>().join("\n") }, miss)
+            }
+            // attribute of a struct
+            3 => format!("st = struct({})\nemit(st.{})\n", names.iter().map(|n| format!("{} = 1", n)).collect::<Vec<_>>().join(", "), miss),
+            // named argument of a def
+            _ => format!("def callee({}):\n    return 1\ncallee({} = 1)\n", names.iter().map(|n| format!("{} = 0", n)).collect::<Vec<_>>().join(", "), miss),
+        };
+        out.push(src);
+    }
+    out
+}
+
+fn observe_static(src: &str, globals: &starlark::environment::Globals) -> J {
+    let tc: Vec<String> = match AstModule::parse("tie.star", src.to_owned(), &run::dialect()) {
+        Ok(ast) => ast.typecheck(globals, &HashMap::new()).0.into_iter().map(|e| format!("{}", e)).collect(),
+        Err(e) => vec![format!("{}", e)],
+    };
+    run::OUT.with(|o| o.borrow_mut().clear());
+    let err = match AstModule::parse("tie.star", src.to_owned(), &run::dialect()) {
+        Ok(ast) => Module::with_temp_heap(|module| {
+            let mut eval = Evaluator::new(&module);
+            match eval.eval_module(ast, globals) {
+                Ok(v) => format!("ok: {}", v.to_repr()),
+                Err(e) => format!("{}", e),
+            }
+        }),
+        Err(e) => format!("{}", e),
+    };
+    json!({"err": err, "typecheck": tc})
+}
+
 fn observe(src: &str, globals: &starlark::environment::Globals) -> J {
     // lint
     let lint: Vec<String> = match AstModule::parse("prog.star", src.to_owned(), &run::dialect()) {
@@ -142,7 +201,12 @@ pub fn record(rest: &[String]) -> anyhow::Result<()> {
                 // unrelated evaluation first, in-process
                 let _ = util::catch(|| observe("x = [i * i for i in range(100)]\ny = {str(k): k for k in x}\n", &globals));
             }
-            let o = match util::catch(|| observe(&src, &globals)) {
+            let ties = tie_sources(&mut rng);
+            let o = match util::catch(|| {
+                let mut o = observe(&src, &globals);
+                o["ties"] = J::Array(ties.iter().map(|t| observe_static(t, &globals)).collect());
+                o
+            }) {
                 Ok(o) => o,
                 Err(p) => json!({"panic": p}),
             };
@@ -151,6 +215,7 @@ pub fn record(rest: &[String]) -> anyhow::Result<()> {
             if full {
                 row["obs"] = o;
                 row["src"] = json!(src);
+                row["tie_srcs"] = json!(ties);
             }
             rows.push(row);
         }
